@@ -39,7 +39,7 @@ def pProxyOp : Parser ProxyOp
   | "cmp" :: r => match pCmpOp r with
     | some (o, r1) => (pPyVal r1).map (fun (v, r2) => (.cmp o v, r2))
     | none => none
-  | "ctxexit" :: r => (pPyVal r).map (fun (v, r') => (.ctxExit v, r'))
+  | "ctxexit" :: r => (pPyVal r).map (fun (v, r') => (.ctxExit v (.imm .none) (.imm .none), r'))
   | "reduceex" :: r => (pPyVal r).map (fun (v, r') => (.reduceEx v, r'))
   | "instancecheck" :: r => (pPyVal r).map (fun (v, r') => (.instancecheck v, r'))
   | "buffiter" :: r => (pPyVal r).map (fun (v, r') => (.buffiterFetch v, r'))
